@@ -196,6 +196,8 @@ def run(prop, tier, seed, only_replay=None):
         for fn in os.listdir(rdir):
             if fn.startswith("violation_%s_" % tier):
                 os.remove(os.path.join(rdir, fn))
+    if not only_replay and os.path.exists(os.path.join(rdir, "summary_%s.json" % tier)):
+        os.remove(os.path.join(rdir, "summary_%s.json" % tier))
     if bysig and not only_replay:
         with open(os.path.join(rdir, "summary_%s.json" % tier), "w") as f:
             json.dump({sig: dict(count=len(vs), what=vs[0]["what"][:300], variant=vs[0].get("variant")) for sig, vs in bysig.items()},
